@@ -21,11 +21,28 @@ if r.returncode != 0:
     print('patch failed', r.stdout, r.stderr); sys.exit(3)
 env = dict(os.environ, VERIF_REPO=scratch, VERIF_EVIDENCE_DIR=scratch + '/evidence')
 res = {}
+# ground truth on the corpus of the bounded native oracle (which properties have a concrete failing input)
+truth = None
+try:
+    os.environ['VERIF_REPO'] = scratch
+    import native
+    native.REPO = scratch
+    nr = native.sweep(native.PROPS, 'quick', 0, repo=scratch)
+    truth = nr['summary'].get('per_property', {})
+    print('NATIVE-TRUTH', json.dumps(truth))
+except Exception as e:
+    print('NATIVE-TRUTH unavailable', e)
 for pid in ids:
     p = subprocess.run([os.path.join(os.path.dirname(HERE), 'check'), pid], capture_output=True, text=True, env=env)
-    lines = [l for l in p.stdout.split('\n') if l.startswith(('VIOLATION', 'FAILED-OBLIGATION', 'UNDECIDED', 'OK', 'KNOWN'))]
+    lines = [l for l in p.stdout.split('\n') if l.startswith(('VIOLATION', 'FAILED-OBLIGATION', 'UNDECIDED', 'OK', 'KNOWN', 'BOUNDED'))]
     res[pid] = (p.returncode, lines)
-    print(pid, 'rc=%d' % p.returncode)
+    note = ''
+    if truth is not None and pid in native.PROPS:
+        t = truth.get(pid, 0) > 0
+        note = {(1, True): 'confirmed by input', (1, False): 'NO failing input in corpus (subtle or FALSE ALARM?)', (0, True): 'MISSED (native has failing input)', (0, False): ''}.get((p.returncode, t), '')
+    print(pid, 'rc=%d' % p.returncode, note)
     for l in lines[:6]:
         print('   ', l[:230])
 shutil.rmtree(scratch, ignore_errors=True)
+import hashlib
+shutil.rmtree(os.path.join(os.path.dirname(HERE), '.cache', 'native', 'crate-' + hashlib.sha1(scratch.encode()).hexdigest()[:10]), ignore_errors=True)
